@@ -79,9 +79,12 @@ def gen_matching(rng, nsurf, collections=True):
 def gen_case(rng, malformed=False, partition=False, max_size=40):
     nsurf = rng.randint(1, 8)
     matching, free = gen_matching(rng, nsurf, collections=not partition)
-    facets = {k: list(range(1, len(v) + 1)) + ([0] if malformed else [])
-              + ([len(v) + 1, len(v) + 2] if malformed else [])
-              for k, v in matching.items() if len(v) >= 2 or malformed}
+    fault = rng.choice(['facet_hi', 'facet0', 'cell', 'surface', 'rn',
+                        'none']) if malformed else None
+    facets = {k: list(range(1, len(v) + 1)) + ([0] if fault == 'facet0' else [])
+              + ([len(v) + 1] if fault == 'facet_hi' else [])
+              for k, v in matching.items()
+              if len(v) >= 2 or fault in ('facet0', 'facet_hi')}
     surfs = list(matching)
     ncells = rng.choice([1, 1, 2, 3, 4, 6])
     ids = rng.sample(range(1, 40), ncells)
@@ -90,7 +93,7 @@ def gen_case(rng, malformed=False, partition=False, max_size=40):
     for cid in ids:
         size = rng.choice([1, 2, 3, 4, 6, 8, 12, 20, max_size])
         refs = list(known)
-        if malformed and rng.random() < 0.1:
+        if fault == 'cell' and rng.random() < 0.5:
             refs = refs + [77]          # a cell that does not exist
         geom = gen_tree(rng, surfs, refs, size, facets)
         if rng.random() < 0.08 and known:
@@ -106,6 +109,8 @@ def gen_case(rng, malformed=False, partition=False, max_size=40):
         known.append(cid)
     if partition:
         make_partition(rng, cells, surfs)
+    if fault == 'surface':
+        del matching[rng.choice(surfs)]
     # dict order of the cells is not the dependency order
     order = list(cells)
     rng.shuffle(order)
@@ -118,7 +123,7 @@ def gen_case(rng, malformed=False, partition=False, max_size=40):
             a, b = rng.sample(t4ids, 2) if len(t4ids) >= 2 else (t4ids[0],) * 2
             a, b = min(a, b), max(a, b)
             rn[b] = rn[a]
-        if malformed and rng.random() < 0.1:
+        if fault == 'rn':
             del rn[rng.choice(t4ids)]
     skipped = [c for c in order if cells[c]['imp'] == 0]
     if rng.random() < 0.05:
@@ -188,9 +193,9 @@ def tree_size(tree):
     return 1 + sum(tree_size(k) for k in tree[1])
 
 
-def all_trees(n_internal, surfs=(1, 2)):
-    '''Every tree with exactly n internal nodes whose leaves are +-surfs;
-    arity 1..3, at most 5 leaves per node (thorough tier).'''
+def all_trees(n_internal, surfs=(1, 2), max_arity=3):
+    '''Every tree with exactly n internal nodes whose leaves are +-surfs and
+    whose nodes have 1..max_arity children (thorough tier).'''
     leaves = [('s', s * sg, None) for s in surfs for sg in (1, -1)]
     memo = {}
 
@@ -214,13 +219,26 @@ def all_trees(n_internal, surfs=(1, 2)):
         key = ('t', n)
         if key not in memo:
             out = []
-            for arity in (1, 2, 3):
+            for arity in range(1, max_arity + 1):
                 for kids in forests(n - 1, arity):
                     for op in '*:':
                         out.append((op, kids))
             memo[key] = out
         return memo[key]
     return trees(n_internal)
+
+
+def random_tree_n(rng, n_internal, surfs=(1, 2), max_arity=3):
+    '''A random tree with exactly n internal nodes (not uniform).'''
+    if n_internal == 0:
+        return ('s', rng.choice(surfs) * rng.choice([1, -1]), None)
+    arity = rng.randint(1, max_arity)
+    rest = n_internal - 1
+    shares = [0] * arity
+    for _ in range(rest):
+        shares[rng.randrange(arity)] += 1
+    return (rng.choice('*:'),
+            [random_tree_n(rng, k, surfs, max_arity) for k in shares])
 
 
 # --------------------------------------------------------------------------
